@@ -373,6 +373,21 @@ def run(p, report, tier):
 
     # ---- R1.8 ------------------------------------------------------------
     check_choice_replace(p, report, funcs, facts)
+    report.rule("R1.10", "what a query returns as indices is a one-dimensional ndarray on every path: not the python "
+                "list the picks were collected in (a list survives on the feature-row path when only the mapping path "
+                "converts it by fancy indexing), and not a (k, 1) array built from one-element arrays "
+                "(`rand_argmax(...)` appended without `[0]`)", floor=30)
+    from ..retkind import RetKinds, BAD
+    for ci_, f_ in pool_query_entities(p):
+        rk = RetKinds(f_.node).run()
+        if not rk.returns:
+            continue
+        for st_, kinds, v_ in rk.returns:
+            wrong = sorted((kinds & set(BAD)) - {"LIST_E"})
+            report.add("R1.10", f"{ci_.name}.query", f"`{norm_stmt(st_, 50)}` returns a 1-d index array", f"{f_.file}:{st_.lineno}",
+                       not wrong, detail=("kinds on the paths to this return: " + ", ".join(sorted(kinds))) if not wrong else
+                       "on some path the returned indices are " + " / ".join(BAD[w] for w in wrong) +
+                       f" (all kinds: {', '.join(sorted(kinds))})")
     report.rule("R1.9", "no utility row can become all-NaN through a 0/0 normalisation (rand_argmax then returns position 0 "
                 "in every remaining step: duplicates): min-max denominators carry a positive constant (shared with C02 R2.7)",
                 floor=2)
@@ -580,6 +595,39 @@ def check_carried_exclusion(p, report, funcs, facts, rule="R1.4c"):
             ops = operand_names(S, ff.locs)
             if not (res & (closure(ops, edges) | ops)):
                 continue
+            # the carried row lives in a container of the caller (`rows[i - 1]`): a store that replaces an
+            # element of that container by a fresh constant array wipes the exclusion of ALL earlier picks,
+            # unless the picks are marked again in the replaced element right away
+            tree_c = FuncTree(f.node)
+            for q in carry:
+                a = bind[q]
+                cont = base_name(a) if isinstance(a, ast.Subscript) else None
+                if cont is None:
+                    continue
+                for rs in ast.walk(L):
+                    if not (isinstance(rs, ast.Assign) and isinstance(rs.targets[0], ast.Subscript)
+                            and isinstance(rs.targets[0].value, ast.Name) and rs.targets[0].value.id == cont
+                            and isinstance(rs.value, ast.Call) and (callname(rs.value) or "").split(".")[-1] in (
+                                "full", "ones", "zeros", "full_like", "ones_like", "zeros_like", "empty")):
+                        continue
+                    blk = tree_c.block_of.get(rs)
+                    remarked = False
+                    if blk is not None:
+                        owner_, field_, idx_ = blk
+                        for later in getattr(owner_, field_)[idx_ + 1:]:
+                            if isinstance(later, ast.Assign) and isinstance(later.targets[0], ast.Subscript) \
+                                    and base_name(later.targets[0]) == cont and (index_names(later.targets[0]) & picks) \
+                                    and isinstance(later.value, ast.Constant) and later.value.value == 0 or (
+                                        isinstance(later, ast.Assign) and isinstance(later.targets[0], ast.Subscript)
+                                        and base_name(later.targets[0]) == cont and (index_names(later.targets[0]) & picks)
+                                        and is_nan_expr(later.value)):
+                                remarked = True
+                    n += 1
+                    report.add(rule, f.qual, f"carried row reset `{norm_stmt(rs, 60)}` keeps the earlier picks excluded",
+                               f"{f.file}:{rs.lineno}", remarked,
+                               detail="the picks are marked again in the fresh row" if remarked else
+                               f"`{cont}` carries the exclusion of all earlier picks into the next step; replacing its element "
+                               f"by a constant array forgets them: only the latest pick is excluded afterwards")
             for q in carry:
                 nonempty = [pn for pn in latest if isinstance(bind[pn], ast.List)]
                 mc = MustCarry(g.node, q, nonnull=[q], nonempty=nonempty)
